@@ -55,7 +55,10 @@ def parseFault (j : Json) : Except String Fault := do
   | "open" => return .openTmp
   | "format" => return .format (← natOf j "i") (errOf (← (← j.getObjVal? "e").getStr?))
   | "write" => return .write (← natOf j "i") (← natOf j "sent")
-  | "close" => return .close
+  | "close" =>
+    let n := match natOf j "lines" with | .ok n => n | .error _ => 0
+    let c := match natOf j "chars" with | .ok n => n | .error _ => 0
+    return .close n c
   | "replace" => return .replace
   | "warn" => return .warn (errOf (← (← j.getObjVal? "e").getStr?))
   | s => throw s!"unknown fault {s}"
